@@ -276,6 +276,7 @@ impl SvgBuilder {
 
         for y in 0..qr.size {
             let line = &qr[y];
+            verif_point!("svg:path_row");
             for (x, &cell) in line.iter().enumerate() {
                 if !cell.value() {
                     continue;
@@ -287,6 +288,7 @@ impl SvgBuilder {
             }
         }
 
+        verif_point!("svg:path_close");
         for (i, &command) in commands.iter().enumerate() {
             let command_color = command_colors[i].as_ref().unwrap_or(&self.dot_color);
             // Allows to compare if two function pointers are the same
@@ -319,9 +321,12 @@ impl SvgBuilder {
             self.margin * 2 + n,
             self.background_color.to_str()
         ));
+        verif_point!("svg:header");
 
         out.push_str(&self.path(qr));
+        verif_point!("svg:path");
         out.push_str(&self.image(n));
+        verif_point!("svg:image");
 
         out.push_str("</svg>");
         out
@@ -334,8 +339,10 @@ impl SvgBuilder {
         use std::io::Write;
 
         let out = self.to_str(qr);
+        verif_point!("svgfile:rendered");
 
         let mut f = File::create(file).map_err(SvgError::IoError)?;
+        verif_point!("svgfile:created");
         f.write_all(out.as_bytes()).map_err(SvgError::IoError)?;
 
         Ok(())
